@@ -68,6 +68,9 @@ var NumberSpellings = []Number{
 	Num("5", "5"),
 	Num("0", "0"),
 	Num("1234567.25", "123456725/100"),
+	// a zero integer part cannot be a digit group: the mark is a decimal mark
+	Num("0.125", "1/8"),
+	Num("0,125", "1/8"),
 }
 
 type symSpec struct {
@@ -133,25 +136,25 @@ func a0(j *Journal) *Amount {
 // DirectiveEntries are the directive / comment entries of G.
 func DirectiveEntries() map[string]Entry {
 	return map[string]Entry{
-		"account":         {Kind: EntryAccount, Account: "assets:cash"},
-		"account-comment": {Kind: EntryAccount, Account: "assets:bank account", Comment: &Comment{Text: " type:A", Tags: []Tag{{"type", "A"}}}},
-		"account-subline": {Kind: EntryAccount, Account: "expenses:food", SubComment: " a note"},
-		"commodity":       {Kind: EntryCommodity, Sym: "$", Format: "$1,000.00"},
-		"commodity-right": {Kind: EntryCommodity, Sym: "EUR", Format: "1.000,00 EUR"},
-		"commodity-space": {Kind: EntryCommodity, Sym: "USD", Format: "1 000.00 USD"},
-		"commodity-quoted": {Kind: EntryCommodity, Sym: "x y", Quoted: true, Format: `1,000.00 "x y"`},
-		"commodity-fmt":   {Kind: EntryCommodityFmt, Sym: "EUR", Format: "1.000,00 EUR"},
-		"include":         {Kind: EntryInclude, Path: "sub/other.journal"},
-		"include-glob":    {Kind: EntryInclude, Path: "sub/*.journal"},
-		"price":           {Kind: EntryPrice, PDate: Date{2001, 1, 3, "-", true, false}, Sym: "EUR", Price: Amount{Num: Num("1.10", "11/10"), Sym: "$", Side: SideLeft}},
-		"price-right":     {Kind: EntryPrice, PDate: Date{2001, 1, 3, "/", true, false}, Sym: "$", Price: Amount{Num: Num("0,90", "9/10"), Sym: "EUR", Side: SideRight, Gap: 1}},
-		"year":            {Kind: EntryYear, Year: 2001, YearKeyword: "Y"},
-		"year-long":       {Kind: EntryYear, Year: 2002, YearKeyword: "year"},
-		"default-commodity": {Kind: EntryDefaultCommodity, Sym: "$", Format: "$1,000.00"},
+		"account":                 {Kind: EntryAccount, Account: "assets:cash"},
+		"account-comment":         {Kind: EntryAccount, Account: "assets:bank account", Comment: &Comment{Text: " type:A", Tags: []Tag{{"type", "A"}}}},
+		"account-subline":         {Kind: EntryAccount, Account: "expenses:food", SubComment: " a note"},
+		"commodity":               {Kind: EntryCommodity, Sym: "$", Format: "$1,000.00"},
+		"commodity-right":         {Kind: EntryCommodity, Sym: "EUR", Format: "1.000,00 EUR"},
+		"commodity-space":         {Kind: EntryCommodity, Sym: "USD", Format: "1 000.00 USD"},
+		"commodity-quoted":        {Kind: EntryCommodity, Sym: "x y", Quoted: true, Format: `1,000.00 "x y"`},
+		"commodity-fmt":           {Kind: EntryCommodityFmt, Sym: "EUR", Format: "1.000,00 EUR"},
+		"include":                 {Kind: EntryInclude, Path: "sub/other.journal"},
+		"include-glob":            {Kind: EntryInclude, Path: "sub/*.journal"},
+		"price":                   {Kind: EntryPrice, PDate: Date{2001, 1, 3, "-", true, false}, Sym: "EUR", Price: Amount{Num: Num("1.10", "11/10"), Sym: "$", Side: SideLeft}},
+		"price-right":             {Kind: EntryPrice, PDate: Date{2001, 1, 3, "/", true, false}, Sym: "$", Price: Amount{Num: Num("0,90", "9/10"), Sym: "EUR", Side: SideRight, Gap: 1}},
+		"year":                    {Kind: EntryYear, Year: 2001, YearKeyword: "Y"},
+		"year-long":               {Kind: EntryYear, Year: 2002, YearKeyword: "year"},
+		"default-commodity":       {Kind: EntryDefaultCommodity, Sym: "$", Format: "$1,000.00"},
 		"default-commodity-right": {Kind: EntryDefaultCommodity, Sym: "EUR", Format: "1.000,00 EUR"},
-		"comment":         {Kind: EntryComment, Comment: &Comment{Text: " a comment line"}},
-		"comment-hash":    {Kind: EntryComment, CommentMark: "#", Comment: &Comment{Text: " hash comment"}},
-		"comment-tag":     {Kind: EntryComment, Comment: &Comment{Text: " tag:v", Tags: []Tag{{"tag", "v"}}}},
+		"comment":                 {Kind: EntryComment, Comment: &Comment{Text: " a comment line"}},
+		"comment-hash":            {Kind: EntryComment, CommentMark: "#", Comment: &Comment{Text: " hash comment"}},
+		"comment-tag":             {Kind: EntryComment, Comment: &Comment{Text: " tag:v", Tags: []Tag{{"tag", "v"}}}},
 	}
 }
 
@@ -245,13 +248,14 @@ func Deviations() []Dev {
 		t.PipeBefore, t.PipeAfter = 2, 2
 	})
 	hc := map[string]Comment{
-		"text":     {Text: " some text"},
-		"tag":      {Text: " tag:v", Tags: []Tag{{"tag", "v"}}},
-		"two-tags": {Text: " a:1, b:", Tags: []Tag{{"a", "1"}, {"b", ""}}},
-		"nospace":  {Text: "nospace"},
+		"text":                {Text: " some text"},
+		"tag":                 {Text: " tag:v", Tags: []Tag{{"tag", "v"}}},
+		"two-tags":            {Text: " a:1, b:", Tags: []Tag{{"a", "1"}, {"b", ""}}},
+		"nospace":             {Text: "nospace"},
 		"nonascii-before-tag": {Text: " é t:v", Tags: []Tag{{"t", "v"}}},
-		"date-tag":  {Text: " date:2001-01-09", Tags: []Tag{{"date", "2001-01-09"}}},
-		"tag-words": {Text: " Tag-1:two words, t_2:é", Tags: []Tag{{"Tag-1", "two words"}, {"t_2", "é"}}},
+		"date-tag":            {Text: " date:2001-01-09", Tags: []Tag{{"date", "2001-01-09"}}},
+		"tag-words":           {Text: " Tag-1:two words, t_2:é", Tags: []Tag{{"Tag-1", "two words"}, {"t_2", "é"}}},
+		"nonbmp-tags":         {Text: " trip:🍕 pizza, k2:v", Tags: []Tag{{"trip", "🍕 pizza"}, {"k2", "v"}}},
 	}
 	for _, k := range sortedKeys(hc) {
 		c := hc[k]
@@ -311,6 +315,16 @@ func Deviations() []Dev {
 		add("account-shape", s, func(j *Journal) {
 			if p := p0(j); p != nil {
 				p.Account = s
+			}
+		})
+	}
+	// account lengths around the longest other account of the default journal (13):
+	// the padding to the amount column passes through 0, 1, 2 and 3 blanks
+	for _, a := range []string{"expenses:fo", "expenses:foo", "expenses:foods", "expenses:foodie"} {
+		a := a
+		add("account-len", fmt.Sprint(len(a)), func(j *Journal) {
+			if p := p0(j); p != nil {
+				p.Account = a
 			}
 		})
 	}
@@ -411,13 +425,14 @@ func Deviations() []Dev {
 		})
 	}
 	pc := map[string]Comment{
-		"text":       {Text: " some text"},
-		"nospace":    {Text: "text"},
-		"two-blanks": {Text: "  two blanks"},
-		"tag":        {Text: " tag:v", Tags: []Tag{{"tag", "v"}}},
-		"two-tags":   {Text: " a:1, b:2", Tags: []Tag{{"a", "1"}, {"b", "2"}}},
+		"text":                {Text: " some text"},
+		"nospace":             {Text: "text"},
+		"two-blanks":          {Text: "  two blanks"},
+		"tag":                 {Text: " tag:v", Tags: []Tag{{"tag", "v"}}},
+		"two-tags":            {Text: " a:1, b:2", Tags: []Tag{{"a", "1"}, {"b", "2"}}},
 		"nonascii-before-tag": {Text: " é t:v", Tags: []Tag{{"t", "v"}}},
-		"three-tags": {Text: " x:1, y:, z:two words", Tags: []Tag{{"x", "1"}, {"y", ""}, {"z", "two words"}}},
+		"three-tags":          {Text: " x:1, y:, z:two words", Tags: []Tag{{"x", "1"}, {"y", ""}, {"z", "two words"}}},
+		"nonbmp-tags":         {Text: " trip:🍕 pizza, k2:v", Tags: []Tag{{"trip", "🍕 pizza"}, {"k2", "v"}}},
 	}
 	for _, k := range sortedKeys(pc) {
 		c := pc[k]
